@@ -51,6 +51,10 @@ Theorem C10_set_duration : forall m d, ~ mel_dur m == 0 ->
   exists m', mel_set_duration m d = Some m' /\ mel_dur m' == d.
 Proof. exact mel_set_duration_total. Qed.
 
+(* set_duration(0) never fails, also on a melody of length 0 (repair of the division by the melody's length) *)
+Theorem C10_set_duration_zero : forall m, exists m', mel_set_duration m 0 = Some m' /\ mel_dur m' == 0.
+Proof. exact mel_set_duration_zero. Qed.
+
 (* decomposing durations keeps the total of a note and of a melody (hence every later onset) *)
 Theorem C10_decompose : forall f d, dec_ok f d = true -> qsum (decompose f d) == d.
 Proof. exact decompose_total. Qed.
